@@ -84,6 +84,10 @@ structure PlanFacts (allTxt : List Nat) (defs refs : List (Nat × Label)) (extSe
     (pl : Plan) : Prop where
   l0_ok : p.minNum ≤ p.l0 ∧ p.l0 ≤ p.maxNum
   dl_ok : 1 ≤ p.dl ∧ p.dl ≤ p.maxNum
+  selNorm : ∃ ep, normSel (splitLines allTxt) ep extSel = .ok pl.sel
+  lineSepOk : pl.lineSep = [CR, LF] ∨ pl.lineSep = [LF]
+  selTxtEq : pl.selTxt =
+    (rangeList pl.sel.s.line pl.sel.e.line).flatMap fun l => (splitLines allTxt)[l]?.getD [] ++ pl.lineSep
   nsel : 1 ≤ (selGroup pl.sel defs).length
   bound : lastNum p pl.sel defs ≤ p.maxNum
   check : ∃ ins0, checkLoop pl.sel p.l0 (lastNum p pl.sel defs) (group defs) 0 = some ins0 ∧
@@ -128,7 +132,8 @@ theorem plan_ok_inv {allTxt : List Nat} {defs refs : List (Nat × Label)} {extSe
     rename_i h1 h2 hsel hn1 hbound hmove
     injection h with h
     subst h
-    refine ⟨by omega, by omega, ?_, ?_, ⟨ins0, hck, rfl⟩, ?_, rfl, rfl, rfl⟩
+    refine ⟨by omega, by omega, ⟨_, hn⟩, ?_, rfl, ?_, ?_, ⟨ins0, hck, rfl⟩, ?_, rfl, rfl, rfl⟩
+    · dsimp only; split <;> simp
     · dsimp only; omega
     · dsimp only [lastNum]; omega
     intro ham
